@@ -5,7 +5,9 @@
 use crate::framework::*;
 use crate::probe::*;
 use crate::rng::Rng;
+use crate::threadsim::*;
 use crate::world::*;
+use std::sync::Arc;
 use rxrust::prelude::*;
 use serde::{Deserialize, Serialize};
 use serde_json::Value;
@@ -121,6 +123,7 @@ impl<H, T> ObservableExt<T, E> for ColdHot<H, T> {}
 pub struct C04;
 
 /// Acceptor state
+#[derive(Clone)]
 struct Model {
   op: Op,
   a_done: bool,
@@ -350,15 +353,19 @@ impl Scenario for C04 {
   fn name(&self) -> &'static str {
     "c04.des"
   }
+  fn weight(&self) -> usize {
+    5
+  }
   fn components(&self) -> (&'static [&'static str], &'static [&'static str]) {
     (
       &["ops/merge.rs", "ops/zip.rs", "ops/combine_latest.rs", "ops/with_latest_from.rs", "ops/take_until.rs", "ops/skip_until.rs", "ops/sample.rs", "ops/buffer.rs (notifier form)", "Subject/SubjectThreads inputs"],
       &[],
     )
   }
-  fn generate(&self, rng: &mut Rng, _tier: Tier) -> Value {
+  fn generate(&self, rng: &mut Rng, tier: Tier) -> Value {
     let op = *rng.pick(&[Op::Merge, Op::Zip, Op::CombineLatest, Op::WithLatestFrom, Op::TakeUntil, Op::SkipUntil, Op::Sample, Op::Buffer]);
-    let len = rng.range(2, 12);
+    let deep = deepen(rng, tier);
+    let len = rng.range(2, 12 * deep);
     let mut script = Vec::new();
     let mut term = [false, false];
     for i in 0..len {
@@ -555,12 +562,203 @@ impl Scenario for C04 {
   }
 }
 
+// ------------------------------------------------------------------- threads
+//
+// The two inputs are driven by two simulated threads. The merged timeline is no
+// longer observable, so the oracle is linearizability against the same
+// acceptor: some order-preserving interleaving of the two scripts that respects
+// real time (an event that returned before another was invoked comes first)
+// must explain the delivered sequence.
+
+#[derive(Clone, Debug, Serialize, Deserialize)]
+pub struct TCase {
+  op: Op,
+  script_a: Vec<In>,
+  script_b: Vec<In>,
+  sched: SchedSpec,
+}
+
+pub struct C04Threads;
+
+#[derive(Clone)]
+struct EvRec {
+  ev: Ev,
+  invoke: u64,
+  ret: u64,
+}
+
+fn linearizable(m: &Model, a: &[EvRec], b: &[EvRec], ia: usize, ib: usize, out: &[Ev], pos: usize, budget: &mut u32) -> bool {
+  if *budget == 0 {
+    return true; // search budget exhausted: undecided counts as explained
+  }
+  *budget -= 1;
+  if ia == a.len() && ib == b.len() {
+    return pos == out.len();
+  }
+  for side in [Side::A, Side::B] {
+    let (mine, other, i, j) = if side == Side::A { (a, b, ia, ib) } else { (b, a, ib, ia) };
+    if i >= mine.len() {
+      continue;
+    }
+    // real time: a pending event of the other thread that had returned before
+    // this one was invoked must be linearized first
+    if j < other.len() && other[j].ret < mine[i].invoke {
+      continue;
+    }
+    let mut m2 = m.clone();
+    for alt in m2.clone().step(side, &mine[i].ev) {
+      if out.len() >= pos + alt.len() && out[pos..pos + alt.len()] == alt[..] {
+        let mut m3 = m2.clone();
+        let _ = m3.step(side, &mine[i].ev);
+        m3.commit(side, &mine[i].ev, &alt);
+        let (na, nb) = if side == Side::A { (ia + 1, ib) } else { (ia, ib + 1) };
+        if linearizable(&m3, a, b, na, nb, out, pos + alt.len(), budget) {
+          return true;
+        }
+      }
+    }
+    let _ = &mut m2;
+  }
+  false
+}
+
+impl Scenario for C04Threads {
+  fn name(&self) -> &'static str {
+    "c04.threads"
+  }
+  fn components(&self) -> (&'static [&'static str], &'static [&'static str]) {
+    (&["merge_threads, zip_threads, combine_latest_threads, with_latest_from_threads, take_until_threads, skip_until_threads, sample_threads over SubjectThreads inputs (MutArc locks interleaved)"], &["OS thread scheduling (baton)"])
+  }
+  fn generate(&self, rng: &mut Rng, _tier: Tier) -> Value {
+    let op = *rng.pick(&[Op::Merge, Op::Zip, Op::CombineLatest, Op::WithLatestFrom, Op::TakeUntil, Op::SkipUntil, Op::Sample]);
+    let mut script = |rng: &mut Rng| -> Vec<In> {
+      let n = rng.range(1, 4);
+      let mut v = Vec::new();
+      for i in 0..n {
+        let last = i + 1 == n;
+        v.push(match rng.weighted(&[8, if last { 3 } else { 1 }, if last { 4 } else { 1 }]) {
+          0 => In::Next,
+          1 => In::Err,
+          _ => In::Complete,
+        });
+      }
+      v
+    };
+    let (script_a, script_b) = (script(rng), script(rng));
+    let strategy = match rng.below(3) {
+      0 => Strategy::Random,
+      1 => Strategy::Seq { den: 3 },
+      _ => Strategy::Pct { d: rng.range(1, 3) as u8, k: 40 },
+    };
+    serde_json::to_value(TCase { op, script_a, script_b, sched: SchedSpec::Seeded { seed: rng.next_u64(), strategy } }).unwrap()
+  }
+  fn run(&self, case: &Value) -> Result<Outcome, String> {
+    let case: TCase = serde_json::from_value(case.clone()).map_err(|e| e.to_string())?;
+    if case.op == Op::Buffer || case.script_a.len() > 6 || case.script_b.len() > 6 {
+      return Err("bad shape".into());
+    }
+    let shr = Shared::new();
+    let w = World::with_shared(shr.clone());
+    let log = ProbeLog::new(true);
+    let p = Probe(log.clone());
+    let sa = SubjectThreads::<Val, E>::default();
+    let sb = SubjectThreads::<Val, E>::default();
+    let pair = |a: Val, b: Val| Val::pair(a, b);
+    let sub: Box<dyn std::any::Any> = {
+      let (a, b) = (sa.clone(), sb.clone());
+      match case.op {
+        Op::Merge => Box::new(a.merge_threads(b).actual_subscribe(p)),
+        Op::Zip => Box::new(a.zip_threads(b).map(|(x, y)| Val::pair(x, y)).actual_subscribe(p)),
+        Op::CombineLatest => Box::new(a.combine_latest_threads(b, pair).actual_subscribe(p)),
+        Op::WithLatestFrom => Box::new(a.with_latest_from_threads(b).map(|(x, y)| Val::pair(x, y)).actual_subscribe(p)),
+        Op::TakeUntil => Box::new(a.take_until_threads(b).actual_subscribe(p)),
+        Op::SkipUntil => Box::new(a.skip_until_threads(b).actual_subscribe(p)),
+        Op::Sample => Box::new(a.sample_threads(b).actual_subscribe(p)),
+        Op::Buffer => unreachable!(),
+      }
+    };
+    let recs_ab: [Arc<std::sync::Mutex<Vec<EvRec>>>; 2] = [Default::default(), Default::default()];
+    let ts = TSim::new(shr.clone(), &case.sched, 2, 0, 8_000);
+    let mut bodies: Vec<Body> = Vec::new();
+    for (t, script) in [case.script_a.clone(), case.script_b.clone()].into_iter().enumerate() {
+      let mut subj = Some(if t == 0 { sa.clone() } else { sb.clone() });
+      let recs = recs_ab[t].clone();
+      bodies.push(Box::new(move || {
+        let mut n = 0i64;
+        for inp in script {
+          let sh = shared();
+          let ev = match inp {
+            In::Next => {
+              n += 1;
+              Ev::Next(Val::I(1000 * (t as i64 + 1) + n))
+            }
+            In::Err => Ev::Err(t as i32 + 1),
+            In::Complete => Ev::Complete,
+          };
+          let invoke = sh.stamp();
+          match (&ev, subj.as_mut()) {
+            (Ev::Next(v), Some(s)) => s.next(v.clone()),
+            (Ev::Err(e), Some(_)) => subj.take().unwrap().error(*e),
+            (Ev::Complete, Some(_)) => subj.take().unwrap().complete(),
+            (_, None) => {}
+          }
+          let ret = sh.stamp();
+          recs.lock().unwrap().push(EvRec { ev, invoke, ret });
+          harness_yield("between-events");
+        }
+      }));
+    }
+    let rep = ts.run(bodies);
+    let site = format!("{:?}_threads", case.op);
+    let out = log.events();
+    let a = recs_ab[0].lock().unwrap().clone();
+    let b = recs_ab[1].lock().unwrap().clone();
+    let mut violation = None;
+    if let Some(d) = &rep.deadlock {
+      violation = Some(Violation { rule: "c04.deadlock".into(), site: site.clone(), detail: d.clone() });
+    } else if rep.budget_overrun {
+      violation = Some(Violation { rule: "c04.livelock".into(), site: site.clone(), detail: "step budget exhausted".into() });
+    } else if let Some((t, m)) = rep.panics.first() {
+      violation = Some(Violation { rule: "c04.panic".into(), site: site.clone(), detail: format!("thread {} panicked: {}", t, m) });
+    } else {
+      let m = Model { op: case.op, a_done: false, b_done: false, out_done: false, qa: vec![], qb: vec![], la: None, lb: None, open: false, pending: None, gathered: vec![] };
+      let mut budget = 200_000u32;
+      if !linearizable(&m, &a, &b, 0, 0, &out, 0, &mut budget) {
+        let show = |r: &[EvRec], n: &str| r.iter().map(|e| format!("{}:{}[{}..{}]", n, fmt_ev(&e.ev), e.invoke, e.ret)).collect::<Vec<_>>().join(" ");
+        violation = Some(Violation {
+          rule: "c04.not-linearizable".into(),
+          site: site.clone(),
+          detail: format!("thread A did `{}`, thread B did `{}`; the subscriber saw [{}], which no interleaving of the two scripts (respecting real-time order) explains", show(&a, "a"), show(&b, "b"), fmt_trace(&out)),
+        });
+      }
+    }
+    let mut resolved = case.clone();
+    resolved.sched = SchedSpec::Explicit(rep.decisions.clone());
+    let h = hash_mix(rep.trace_hash, hash_str(&fmt_trace(&out)));
+    drop(sub);
+    drop(sa);
+    drop(sb);
+    drop(w);
+    Ok(Outcome {
+      violation,
+      trace_hash: h,
+      nontrivial: rep.multi_choice > 0,
+      sim_ns: 0,
+      steps: rep.steps,
+      faults: vec![("preemption_at_lock_point", rep.preemptions), ("lock_contention", rep.contentions)],
+      reach: vec![("try_lock_contention_observed", (rep.contentions > 0) as u64)],
+      resolved: Some(serde_json::to_value(resolved).unwrap()),
+      sample: format!("{} a={:?} b={:?} decisions={} => [{}]", site, case.script_a, case.script_b, rep.decisions.len(), fmt_trace(&out)),
+    })
+  }
+}
+
 pub fn check_def() -> PropertyCheck {
   PropertyCheck {
     id: "C04",
-    scenarios: vec![Box::new(C04)],
+    scenarios: vec![Box::new(C04), Box::new(C04Threads)],
     runs: (400_000, 40_000_000),
-    rule: "case = operator (merge, zip, combine_latest, with_latest_from, take_until, skip_until, sample, buffer; local and _threads) + merged timeline of <=12 events of two hot inputs (next/error/complete at any position, incl. events after the input's own terminal); non-trivial = both inputs speak; distinct = distinct (case, behaviour) hashes",
+    rule: "case = operator (merge, zip, combine_latest, with_latest_from, take_until, skip_until, sample, buffer; local and _threads) + merged timeline of <=12 events of two hot inputs (next/error/complete at any position, incl. events after the input's own terminal); non-trivial = both inputs speak; distinct = distinct (case, behaviour) hashes; thread case = the two inputs of a _threads operator driven by two simulated threads (<=4 events each) under a seeded lock-level schedule, judged by linearizability against the same acceptor (some real-time-respecting interleaving of the two scripts must explain the delivered sequence)",
     assumptions: vec!["where the statement is silent (early completion of zip/combine_latest, sampler/notifier completion) every behaviour it allows is accepted"],
   }
 }
